@@ -366,12 +366,22 @@ Print Assumptions C12_writer_issue_order.
 (* non-vacuity: checkpoint v1 in flight, v2 and a Delete queued, v1 fails: v2 is skipped as obsolete, the Delete is the
    only effect; then a fresh Put lands *)
 Example C12_writer_nonvacuous :
-  let w := ow_run [OIssue (WPut 1); OIssue (WPut 2); OIssue WDel; OComplete false; OComplete true;
-                   OIssue (WPut 3); OComplete true] in
+  let w := ow_run [OIssue (WPut 1); OIssue (WPut 2); OIssue WDel; OComplete false false; OComplete true false;
+                   OIssue (WPut 3); OComplete true false] in
   q_log w = [(3, WPut 3); (2, WDel)]%N /\ q_val w = Some 3%N /\ q_infl w = None /\
   q_res w = [(0, false); (1, true); (2, true); (3, true)]%N.
 Proof. vm_compute. repeat split. Qed.
 Print Assumptions C12_writer_nonvacuous.
+
+(* what the writer does with a Store error is a free choice within the contract: give the write up (/repo HEAD,
+   PutAsync) or repeat it INSIDE its slot ([OComplete false true]).  [C12_writer_issue_order] quantifies over both; here
+   a failed Put is repeated, lands, and only then the Delete queued behind it runs *)
+Example C12_writer_retry_nonvacuous :
+  let w := ow_run [OIssue (WPut 1); OIssue WDel; OComplete false true; OComplete true false; OComplete true false] in
+  q_log w = [(1, WDel); (0, WPut 1)]%N /\ q_val w = None /\ q_infl w = None /\
+  q_res w = [(0, true); (1, true)]%N.
+Proof. vm_compute. repeat split. Qed.
+Print Assumptions C12_writer_retry_nonvacuous.
 
 (* Write order = call order is also an assumption about the CALLERS: [Ck] marshals the image and takes the write slot
    in one step.  internal/ipoe checkpointSession before 27a2839 (finding concurrent-checkpoint-reorder/ipoe, fixed)
@@ -379,7 +389,7 @@ Print Assumptions C12_writer_nonvacuous.
    their slots in the reverse order of their images; the writer then faithfully makes the OLDER image (1) the final
    one although the newer image (2) was marshalled later.  Reproduced on the real code by the `race` harness. *)
 Theorem C12_concurrent_checkpoint_refuted :
-  let w := ow_run [OIssue (WPut 2); OIssue (WPut 1); OComplete true; OComplete true] in
+  let w := ow_run [OIssue (WPut 2); OIssue (WPut 1); OComplete true false; OComplete true false] in
   q_val w = Some 1%N /\ q_log w = [(1, WPut 1); (0, WPut 2)]%N.
 Proof. vm_compute. split; reflexivity. Qed.
 Print Assumptions C12_concurrent_checkpoint_refuted.
